@@ -6,6 +6,8 @@
                 (all residues modulo 4, empty values, empty last parameter) — finite-domain evaluation
   C08-PAD       both padl() equal (-n) mod 4 on all residues; Chunk/DataChunk serialisers emit 4-byte multiples with the
                 right length field and parse_packet recovers two bundled chunks for all body-length residues
+  C08-ROUND     every chunk class and RE-CONFIG parameter class, built with representative (non-default, boundary) field values,
+                flags and list lengths 0..4, survives serialize_packet -> parse_packet / __bytes__ -> parse with equal fields
   C08-TYPES     every concrete Chunk subclass is registered in CHUNK_CLASSES with a distinct type; RE-CONFIG registry
                 keys equal the three parameter type constants
   C08-CRC-ORDER no chunk is constructed in parse_packet unless the checksum comparison failed to differ (false edge);
